@@ -121,7 +121,7 @@ Example C12_example_id :
   decode_env scan_uint (encode_env id Queued [52; 50]) = Ok (id, Queued, [52; 50]) /\
   decode_env scan_uint (encode_env [] Created [48]) = Ok ([], Created, [48]) /\
   dec_string [34; 92; 117; 100; 56; 51; 100; 92; 117; 100; 101; 48; 48; 34] = Some ([128512], []).
-Proof. vm_compute. repeat split; repeat constructor. Qed.
+Proof. cbv zeta. split; [repeat constructor|]. vm_compute. repeat split. Qed.
 
 Example C12_example_isolation :
   let good1 := encode_env [97] Created [49] in
